@@ -73,7 +73,13 @@ def gen_cases(rng, tier):
                     t = rng.choice(tg)
                     if rng.random() < 0.5:
                         from .c10 import time_expr
-                        op.update({"name": t["name"], "mat": [[time_expr(rng)] for _ in range(t["shape"][0])]})
+                        mat = [[time_expr(rng)] for _ in range(t["shape"][0])]
+                        gp = [p_ for p_ in spec["params"] if not p_.get("grid") and p_.get("role") != "horizon"]
+                        if gp and rng.random() < 0.4:
+                            # a guess that is an expression of a parameter (and time): it follows later set_value calls
+                            pl = rng.choice(ocpgen.elems(*[(q["name"], q["shape"]) for q in [rng.choice(gp)]][0]))
+                            mat[0][0] = ["+", ["*", pl, ["t"]], mat[0][0]]
+                        op.update({"name": t["name"], "mat": mat})
                     else:
                         op.update({"name": t["name"], "value": ocpgen.rnd(rng, -2, 2)})
             elif kind == "subject_to":
@@ -130,6 +136,20 @@ def gen_cases(rng, tier):
                 ops = ops + scen
             else:
                 ops = scen + ops
+        gp_ = [p_ for p_ in spec["params"] if not p_.get("grid") and p_.get("role") != "horizon"]
+        tg_ = [s_ for s_ in spec["controls"] if s_["shape"][1] == 1]
+        if i % 5 == 2 and gp_ and tg_:
+            # scenario family: a guess written in terms of a parameter whose value changes after a transcription
+            from .c09 import rand_value
+            from .c10 import time_expr
+            pp_ = rng.choice(gp_)
+            pl = rng.choice(ocpgen.elems(pp_["name"], pp_["shape"]))
+            t_ = rng.choice(tg_)
+            mat = [[time_expr(rng)] for _ in range(t_["shape"][0])]
+            mat[0][0] = ["+", ["*", pl, ["+", ["t"], ["c", 1.0]]], mat[0][0]]
+            scen = [{"op": "set_initial", "name": t_["name"], "mat": mat}, {"op": rng.choice(["sample", "solve"])},
+                    {"op": "set_value", "name": pp_["name"], "value": rand_value(rng, pp_, curN)}, {"op": "sample"}]
+            ops = ops + scen
         if not any(o["op"] in QUERIES for o in ops):
             ops.insert(rng.randint(0, len(ops)), {"op": "sample"})
         ops.append({"op": rng.choice(["sample", "solve"])})
